@@ -89,7 +89,11 @@ def extract():
     kw = {k.arg: ast.unparse(k.value) for k in calls[0].keywords}
     if "limit" not in kw and len(calls[0].args) == 1:
         C["prince_passes_remaining_size"] = False
-    elif kw.get("limit", "").replace(" ", "") in ("max_size-num_generated_guesses", "remaining"):
+    elif "limit" in kw and kw["limit"] != "None":
+        # SOME limit is passed.  WHAT is passed (max_size - num_generated_guesses, under whatever local names) is
+        # decided by the translator tie of the function itself (harness/translate_session.py ->
+        # gen/SessionPrince_gen.v, SessionPrinceGenProofs.prince_eq); the shape check that used to be here raised on
+        # harmless renames of the locals
         C["prince_passes_remaining_size"] = True
     else:
         raise ExtractError("create_prince_wordlist: unexpected create_guesses arguments %r" % kw)
